@@ -182,7 +182,7 @@ impl Host {
         let node = if std::path::Path::new("/usr/bin/nodejs").exists() { "/usr/bin/nodejs" } else { "node" };
         let mut child = Command::new(node)
             .arg(&script)
-            .arg("/repo/abasic-web/ts/main.ts")
+            .arg(format!("{}/abasic-web/ts/main.ts", std::env::var("VERIF_REPO_DIR").unwrap_or_else(|_| "/repo".into())))
             .stdin(Stdio::piped())
             .stdout(Stdio::piped())
             .stderr(Stdio::null())
